@@ -83,10 +83,11 @@ BodyOf(w, T) == IF T = MainName THEN w.main
 InitX(w, T) == IF w.tree = "ab" \/ ModIdx(w, T) = 0 THEN 7 ELSE w.mods[ModIdx(w, T)].init
 \* a module file that contains an import statement with an invalid path does not compile
 ParseOK(body) == \A k \in 1..Len(body):
-                    body[k].k \in {"imp", "fimp", "from"} => AcceptsName(body[k].tgt)
+                    body[k].k \in {"imp", "fimp", "sfimp", "from"} => AcceptsName(body[k].tgt)
 
 \* ===================================================================== machine state
-Frame(i) == [o |-> i, pc |-> 1, it |-> 0, vals |-> <<>>, skip |-> {}]
+\* ni: the number of module instances that existed when the frame reached its current statement
+Frame(i) == [o |-> i, pc |-> 1, it |-> 0, vals |-> <<>>, skip |-> {}, ni |-> i]
 \* module names are sequences of segment STRINGS (CleanR works on code point tuples):
 RECURSIVE CleanN(_, _, _, _)
 CleanN(T, k, up, acc) ==
@@ -103,6 +104,9 @@ InitState(w) ==
     err |-> IF ok THEN "" ELSE "parse",
     stack |-> IF ok THEN <<Frame(1)>> ELSE <<>>,
     modules |-> <<>>,                 \* NAME -> instance (per-VM cache of evaluated modules)
+    \* does a spawned thread share the module table of its parent (the property: one evaluation, one module state)?
+    \* FALSE is the pinned implementation: the thread's VM gets a COPY of the table, what it imports is lost
+    shares |-> IF "shares" \in DOMAIN w THEN w.shares ELSE TRUE,
     codeCache |-> {},                 \* names compiled by the importer
     ran |-> <<>>,                     \* NAME -> number of body runs started
     fails |-> <<>>,                   \* NAME -> number of body runs that failed
@@ -165,7 +169,7 @@ Unknown(s) == [s EXCEPT !.status = "unknown", !.stack = <<>>]
 EnvOf(s, i) == s.insts[i].env
 SetVar(s, i, v, val) == [s EXCEPT !.insts = [@ EXCEPT ![i] = [@ EXCEPT !.env = Ext(@, v, val)]]]
 Advance(s) == LET f == Top(s) IN
-  SetTop(s, [f EXCEPT !.pc = @ + 1, !.it = 0, !.vals = <<>>, !.skip = {}])
+  SetTop(s, [f EXCEPT !.pc = @ + 1, !.it = 0, !.vals = <<>>, !.skip = {}, !.ni = Len(s.insts)])
 Used(s, T) == [s EXCEPT !.uses = Ext(@, T, Count(@, T) + 1)]
 
 \* the module the current statement wants to load next (<<>> if none)
@@ -174,7 +178,7 @@ Want(w, s) ==
       B == BodyOf(w, s.insts[f.o].name)
   IN IF f.pc > Len(B) THEN <<>>
      ELSE LET st == B[f.pc] IN
-       IF st.k \in {"imp", "fimp"}
+       IF st.k \in {"imp", "fimp", "sfimp"}
        THEN IF st.tgt \in DOMAIN s.modules \/ st.tgt \in f.skip THEN <<>> ELSE st.tgt
        ELSE IF st.k = "from"
        THEN LET it == IF f.it = 0 THEN Len(st.items) ELSE f.it
@@ -271,6 +275,15 @@ ExecOp(s, st) ==
             IF x.t = "int" THEN Advance(Obs(SetVar(s, f.o, "x", IntV(x.n + 100)), x.n + 100)) ELSE Unknown(s)
        [] OTHER -> Unknown(s)
 
+\* the same in a spawned thread that is waited for.  With s.shares the thread shares the module table; without
+\* (the pinned implementation) every module instance created since the statement began - by the thread - stays
+\* alive but leaves the parent's table, so a later import of the same module runs its body again
+ExecSfimp(s, st) ==
+  LET f == Top(s)
+      s1 == ExecFimp(s, st)
+  IN IF s.shares \/ s1.status # "run" THEN s1
+     ELSE [s1 EXCEPT !.modules = [T \in {T \in DOMAIN s1.modules : s1.modules[T] <= f.ni} |-> s1.modules[T]]]
+
 \* one transition of the evaluation of world w
 Exec(w, s) ==
   LET f == Top(s)
@@ -280,7 +293,10 @@ Exec(w, s) ==
      ELSE IF f.pc > Len(B) THEN Finish(s)
      ELSE LET st == B[f.pc] IN
           IF st.k = "imp" THEN ExecImp(s, st)
+          \* "sfimp": the same function literal run in a spawned thread and waited for - the thread's VM is a clone
+          \* that shares the module table and every module instance of its parent
           ELSE IF st.k = "fimp" THEN ExecFimp(s, st)
+          ELSE IF st.k = "sfimp" THEN ExecSfimp(s, st)
           ELSE IF st.k = "from" THEN ExecFrom(s, st)
           ELSE ExecOp(s, st)
 
